@@ -25,7 +25,7 @@ import xarray as xr
 
 from harness import core
 
-GEN = ["gen_refine_consts"]
+GEN = ["gen_refine_consts", "gen_refine_kernels"]
 EXTRACT_FILES = ["X06"]
 DRIVERS = ["x06"]
 RULE = ("a case is one pixel of one call of subpixel_refinement (or approximate_subpixel_refinement): a cost row whose "
@@ -972,4 +972,13 @@ def run(ctx):
             check_approx(ctx, c, r)
         ctx.stats["approx_rows"] = len(approx)
 
-    ctx.gen_obligations = ["consts_wf (mkK Gen.RefineConsts.msk_invalid Gen.RefineConsts.msk_stopped) = true (vm_compute)"]
+    ctx.gen_obligations = [
+        "consts_wf (mkK Gen.RefineConsts.msk_invalid Gen.RefineConsts.msk_stopped) = true (vm_compute)",
+        "C06_gen_vfit_eq: forall m oc0 c1 oc2 d, Gen.RefineKernels.vfit K oc0 (Some c1) oc2 d m ~ Model.Refine.vfit K m oc0 c1 oc2 "
+        "(Proofs/RefineGenP.v gen_vfit_eq, re-proved against the regenerated text of Vfit.refinement_method)",
+        "C06_gen_quadratic_eq: forall m oc0 c1 oc2 d, Gen.RefineKernels.quadratic K oc0 (Some c1) oc2 d m ~ "
+        "Model.Refine.quadratic K m oc0 c1 oc2 (gen_quadratic_eq, regenerated text of Quadratic.refinement_method)",
+        "C06_gen_pixel_eq: forall me m dmin dmax s cv disp mask, 0 < s -> Gen.RefineKernels.loop_pixel (called with the "
+        "generated method) ~ Model.Refine.loop_pixel (gen_loop_pixel_eq, regenerated text of the pixel body of "
+        "AbstractRefinement.loop_refinement)",
+    ]
